@@ -18,6 +18,7 @@ KIND = {'Custom': 0, 'Leaf': 1, 'None': 2, 'Tuple': 3, 'List': 4, 'Dict': 5, 'Na
         'DefaultDict': 8, 'Deque': 9, 'StructSequence': 10}
 KIND_NAME = {v: k for k, v in KIND.items()}
 MAX_RECURSION_DEPTH = 1000
+CHAIN_WEIGHT = 8
 
 NODE_FIELDS = {'kind': Int, 'arity': Int, 'node_data': Ref, 'node_entries': Ref, 'custom': Ref,
                'num_leaves': Int, 'num_nodes': Int, 'original_keys': Ref}
@@ -286,13 +287,16 @@ class WFView:
             z3.ForAll([i], z3.Implies(inr, z3.And(NN(i) >= 1, NN(i) <= i + 1, A(i) >= 0, NL(i) >= 0)), patterns=[NN(i)]),
             z3.ForAll([i], z3.Implies(z3.And(inr, K(i) == LEAF), z3.And(A(i) == 0, NL(i) == 1)), patterns=[K(i)]),
             z3.ForAll([i], z3.Implies(z3.And(inr, A(i) == 0), NN(i) == 1), patterns=[A(i)]),
+            # NOTE: these three axioms generate new cpos/num_nodes terms (child of child of ...): a weight keeps the
+            # E-matching chain shallow (instances beyond generation 2 are delayed), avoiding matching loops
             z3.ForAll([i], z3.Implies(z3.And(inr, A(i) > 0),
-                                      z3.And(cpos(i, A(i) - 1) == i - 1, start(cpos(i, 0)) == start(i))), patterns=[A(i)]),
+                                      z3.And(cpos(i, A(i) - 1) == i - 1, start(cpos(i, 0)) == start(i))), patterns=[A(i)],
+                      weight=CHAIN_WEIGHT),
             z3.ForAll([i, k], z3.Implies(z3.And(inr, 0 <= k, k < A(i)),
                                          z3.And(start(i) <= cpos(i, k), cpos(i, k) < i, start(cpos(i, k)) >= start(i))),
-                      patterns=[cpos(i, k)]),
+                      patterns=[cpos(i, k)], weight=CHAIN_WEIGHT),
             z3.ForAll([i, k], z3.Implies(z3.And(inr, 1 <= k, k < A(i)), cpos(i, k - 1) == start(cpos(i, k)) - 1),
-                      patterns=[cpos(i, k)]),
+                      patterns=[cpos(i, k)], weight=CHAIN_WEIGHT),
             PL(0) == 0,
             z3.ForAll([k], z3.Implies(z3.And(0 <= k, k < n), PL(k + 1) == PL(k) + z3.If(K(k) == LEAF, 1, 0)),
                       patterns=[PL(k + 1)]),
